@@ -7,7 +7,10 @@ counts = {m.group(1): int(m.group(2)) for m in re.finditer(r"^\[(C\d\d)\] (\d+) 
 p = "/verif/DESIGN.md"
 lines = open(p).read().split("\n")
 n = 0
+start = next(i for i, l in enumerate(lines) if l.startswith("| id | claimed | rules"))
 for i, l in enumerate(lines):
+    if not (start + 2 <= i < start + 2 + 19):   # the claim summary only, not the tables of sections 6 and 9
+        continue
     m = re.match(r"^\| (C\d\d) \|", l)
     if not m or m.group(1) not in counts:
         continue
